@@ -98,7 +98,7 @@ class HedIDValidator:
             return []
 
         issues = []
-        if old_id and old_id != new_id:
+        if old_id is not None and old_id != new_id:
             issues += ErrorHandler.format_error(SchemaAttributeErrors.SCHEMA_HED_ID_INVALID, tag_entry.name, new_id,
                                                 old_id=old_id)
 
